@@ -2,6 +2,20 @@
 
 package main
 
-import "verifharness/c02"
+import (
+	"math/rand"
 
-func init() { register("C02", "fault_enumeration", c02.Run) }
+	"verifharness/c02"
+	"verifharness/gen/samples"
+)
+
+func init() {
+	register("C02", "fault_enumeration", c02.Run)
+	for _, f := range []string{"docx", "odt", "xlsx", "pptx", "epub"} {
+		f := f
+		c02.ExtraBases = append(c02.ExtraBases, func(r *rand.Rand) ([]byte, string, string) {
+			s := samples.Make(f, r)
+			return s.Data, f, s.Desc
+		})
+	}
+}
